@@ -84,100 +84,267 @@ func errCodeIdent(n ast.Node) string {
 	return res
 }
 
-// sizeOverhead finds `sizeLimit -= len(x.Name) + len(x.Value) + <lit>` and returns the literal.
-func sizeOverhead(fd *ast.FuncDecl) (int, error) {
-	val, n := 0, 0
-	ast.Inspect(fd, func(x ast.Node) bool {
-		as, ok := x.(*ast.AssignStmt)
-		if !ok || as.Tok != token.SUB_ASSIGN || len(as.Lhs) != 1 || len(as.Rhs) != 1 {
-			return true
+// h3pkg is an AST-only index of the non-test files of one package directory: its functions / methods
+// by bare name and its integer constants. Extractors use it to follow calls into helpers of the same
+// package, so that extracting a helper (or inlining one) does not change the extracted fact.
+type h3pkg struct {
+	files  []*ast.File
+	funcs  map[string][]*ast.FuncDecl
+	consts map[string]ast.Expr
+	// names under which each file imports other packages (calls through them are never followed)
+	imports map[*ast.File]map[string]bool
+	fileOf  map[*ast.FuncDecl]*ast.File
+}
+
+func loadH3Pkg(c *Ctx, rel string) (*h3pkg, error) {
+	dir := filepath.Join(c.Repo, rel)
+	ents, err := os.ReadDir(dir)
+	if err != nil {
+		return nil, err
+	}
+	p := &h3pkg{funcs: map[string][]*ast.FuncDecl{}, consts: map[string]ast.Expr{}, imports: map[*ast.File]map[string]bool{}, fileOf: map[*ast.FuncDecl]*ast.File{}}
+	for _, e := range ents {
+		n := e.Name()
+		if e.IsDir() || !strings.HasSuffix(n, ".go") || strings.HasSuffix(n, "_test.go") || strings.HasPrefix(n, "verif_") {
+			continue
 		}
-		if id, ok := as.Lhs[0].(*ast.Ident); !ok || id.Name != "sizeLimit" {
-			return true
+		f, err := parser.ParseFile(c.Fset, filepath.Join(dir, n), nil, 0)
+		if err != nil {
+			return nil, err
 		}
-		// shape: (len(a) + len(b)) + lit ; anything else is overhead 0 with both len() terms required
-		lens, lit, other := 0, 0, false
-		var walk func(e ast.Expr)
-		walk = func(e ast.Expr) {
-			switch t := e.(type) {
-			case *ast.BinaryExpr:
-				if t.Op != token.ADD {
-					other = true
-					return
+		p.files = append(p.files, f)
+		imps := map[string]bool{}
+		for _, im := range f.Imports {
+			path, _ := strconv.Unquote(im.Path.Value)
+			name := path[strings.LastIndex(path, "/")+1:]
+			if im.Name != nil {
+				name = im.Name.Name
+			}
+			imps[name] = true
+		}
+		p.imports[f] = imps
+		for _, d := range f.Decls {
+			switch t := d.(type) {
+			case *ast.FuncDecl:
+				p.funcs[t.Name.Name] = append(p.funcs[t.Name.Name], t)
+				p.fileOf[t] = f
+			case *ast.GenDecl:
+				if t.Tok != token.CONST {
+					continue
 				}
-				walk(t.X)
-				walk(t.Y)
-			case *ast.ParenExpr:
-				walk(t.X)
-			case *ast.CallExpr:
-				if id, ok := t.Fun.(*ast.Ident); ok && id.Name == "len" {
-					lens++
-				} else {
-					other = true
+				for _, sp := range t.Specs {
+					vs := sp.(*ast.ValueSpec)
+					for i, nm := range vs.Names {
+						if i < len(vs.Values) {
+							p.consts[nm.Name] = vs.Values[i]
+						}
+					}
 				}
-			case *ast.BasicLit:
-				v, err := strconv.Atoi(t.Value)
-				if err != nil {
-					other = true
-				}
-				lit += v
-			default:
-				other = true
 			}
 		}
-		walk(as.Rhs[0])
-		if other || lens != 2 {
-			n = -1000
-			return false
+	}
+	return p, nil
+}
+
+// callees returns the same-package functions a call expression may reach (by bare name; calls through
+// an imported package are skipped).
+func (p *h3pkg) callees(from *ast.FuncDecl, ce *ast.CallExpr) []*ast.FuncDecl {
+	switch f := ce.Fun.(type) {
+	case *ast.Ident:
+		return p.funcs[f.Name]
+	case *ast.SelectorExpr:
+		root := f.X
+		for {
+			if se, ok := root.(*ast.SelectorExpr); ok {
+				root = se.X
+				continue
+			}
+			break
 		}
-		val = lit
-		n++
+		if id, ok := root.(*ast.Ident); ok && p.imports[p.fileOf[from]][id.Name] {
+			return nil
+		}
+		return p.funcs[f.Sel.Name]
+	}
+	return nil
+}
+
+// closure returns root and every same-package function reachable from it through calls.
+func (p *h3pkg) closure(root *ast.FuncDecl) []*ast.FuncDecl {
+	seen := map[*ast.FuncDecl]bool{root: true}
+	order := []*ast.FuncDecl{root}
+	for i := 0; i < len(order); i++ {
+		fd := order[i]
+		if fd.Body == nil {
+			continue
+		}
+		ast.Inspect(fd.Body, func(x ast.Node) bool {
+			if ce, ok := x.(*ast.CallExpr); ok {
+				for _, g := range p.callees(fd, ce) {
+					if !seen[g] {
+						seen[g] = true
+						order = append(order, g)
+					}
+				}
+			}
+			return true
+		})
+	}
+	return order
+}
+
+// sizeTerms evaluates an expression of the shape len(a) + len(b) + <integer constants>, looking through
+// parentheses, named integer constants of the package and calls of same-package helpers whose body is
+// a single `return <expr>`. ok=false for any other shape.
+func (p *h3pkg) sizeTerms(from *ast.FuncDecl, e ast.Expr, depth int) (lens, lit int, ok bool) {
+	if depth > 8 {
+		return 0, 0, false
+	}
+	switch t := e.(type) {
+	case *ast.ParenExpr:
+		return p.sizeTerms(from, t.X, depth+1)
+	case *ast.BinaryExpr:
+		if t.Op != token.ADD {
+			return 0, 0, false
+		}
+		l1, c1, ok1 := p.sizeTerms(from, t.X, depth+1)
+		l2, c2, ok2 := p.sizeTerms(from, t.Y, depth+1)
+		return l1 + l2, c1 + c2, ok1 && ok2
+	case *ast.BasicLit:
+		v, err := strconv.ParseInt(t.Value, 0, 64)
+		return 0, int(v), err == nil && t.Kind == token.INT
+	case *ast.Ident:
+		if ce, found := p.consts[t.Name]; found {
+			return p.sizeTerms(from, ce, depth+1)
+		}
+		return 0, 0, false
+	case *ast.CallExpr:
+		if id, isId := t.Fun.(*ast.Ident); isId && id.Name == "len" && len(t.Args) == 1 {
+			return 1, 0, true
+		}
+		cs := p.callees(from, t)
+		if len(cs) != 1 || cs[0].Body == nil || len(cs[0].Body.List) != 1 {
+			return 0, 0, false
+		}
+		rs, isRet := cs[0].Body.List[0].(*ast.ReturnStmt)
+		if !isRet || len(rs.Results) != 1 {
+			return 0, 0, false
+		}
+		return p.sizeTerms(cs[0], rs.Results[0], depth+1)
+	}
+	return 0, 0, false
+}
+
+// sizeOverhead finds, in fd, the one statement `<budget> -= len(name) + len(value) + <const>` (the sum may
+// be spelled through same-package helpers / named constants) and returns the constant.
+func (p *h3pkg) sizeOverhead(fd *ast.FuncDecl) (int, error) {
+	var vals []int
+	ast.Inspect(fd, func(x ast.Node) bool {
+		as, ok := x.(*ast.AssignStmt)
+		if !ok || len(as.Lhs) != 1 || len(as.Rhs) != 1 {
+			return true
+		}
+		rhs := as.Rhs[0]
+		switch as.Tok {
+		case token.SUB_ASSIGN:
+		case token.ASSIGN: // budget = budget - (…)
+			be, isBin := rhs.(*ast.BinaryExpr)
+			l, lok := as.Lhs[0].(*ast.Ident)
+			r, rok := func() (*ast.Ident, bool) {
+				if !isBin {
+					return nil, false
+				}
+				id, ok := be.X.(*ast.Ident)
+				return id, ok
+			}()
+			if !isBin || be.Op != token.SUB || !lok || !rok || l.Name != r.Name {
+				return true
+			}
+			rhs = be.Y
+		default:
+			return true
+		}
+		if lens, lit, ok := p.sizeTerms(fd, rhs, 0); ok && lens == 2 {
+			vals = append(vals, lit)
+		}
 		return true
 	})
-	if n != 1 {
-		return 0, fmt.Errorf("%s: expected exactly one `sizeLimit -= len(name)+len(value)+<const>` statement", fd.Name.Name)
+	if len(vals) != 1 {
+		return 0, fmt.Errorf("%s: expected exactly one `<budget> -= len(name)+len(value)+<const>` statement (directly or through same-package helpers), found %d", fd.Name.Name, len(vals))
 	}
-	return val, nil
+	return vals[0], nil
 }
 
 // errMapping extracts, from a caller of requestFromHeaders/updateResponseFromHeaders, the code used
-// by default (`errCode := ErrCodeX`), for a *qpackError (`errors.As(err,&qpackErr)` → `errCode = ErrCodeY`)
-// and, if present, for errHeaderTooLarge (`errors.Is(err, errHeaderTooLarge)` block).
+// by default (`<v> := ErrCodeX`), for a *qpackError (`errors.As(err, &<var of type *qpackError>)` → ErrCodeY)
+// and, if present, for errHeaderTooLarge (`errors.Is(err, errHeaderTooLarge)` → ErrCodeZ [+ 431 response]).
+// The conditions may be spelled as if statements or as cases of a tagless switch; a comparison
+// `err == errHeaderTooLarge` is NOT errors.Is and is reported.
 func errMapping(fd *ast.FuncDecl) (def, qp, tooLarge string, tooLargeRejects bool, err error) {
+	var defs []string
+	eqCompare := false
+	branch := func(cond ast.Expr, body ast.Node) {
+		if be, ok := cond.(*ast.BinaryExpr); ok && (be.Op == token.EQL || be.Op == token.NEQ) && identsIn(be)["errHeaderTooLarge"] {
+			eqCompare = true
+		}
+		ce, ok := cond.(*ast.CallExpr)
+		if !ok {
+			return
+		}
+		se, ok := ce.Fun.(*ast.SelectorExpr)
+		if !ok {
+			return
+		}
+		pk, _ := se.X.(*ast.Ident)
+		if pk == nil || pk.Name != "errors" {
+			return
+		}
+		if se.Sel.Name == "As" {
+			qp = errCodeIdent(body)
+		}
+		if se.Sel.Name == "Is" && identsIn(ce)["errHeaderTooLarge"] {
+			tooLarge = errCodeIdent(body)
+			tooLargeRejects = identsIn(body)["rejectWithHeaderFieldsTooLarge"]
+		}
+	}
+	hasQpackVar := false
 	ast.Inspect(fd, func(x ast.Node) bool {
 		switch t := x.(type) {
+		case *ast.ValueSpec:
+			if st, ok := t.Type.(*ast.StarExpr); ok {
+				if id, ok := st.X.(*ast.Ident); ok && id.Name == "qpackError" {
+					hasQpackVar = true
+				}
+			}
 		case *ast.AssignStmt:
-			if t.Tok == token.DEFINE && len(t.Lhs) == 1 {
-				if id, ok := t.Lhs[0].(*ast.Ident); ok && id.Name == "errCode" {
-					def = errCodeIdent(t.Rhs[0])
+			if t.Tok == token.DEFINE && len(t.Lhs) == 1 && len(t.Rhs) == 1 {
+				if id, ok := t.Rhs[0].(*ast.Ident); ok && strings.HasPrefix(id.Name, "ErrCode") && id.Name != "ErrCode" {
+					defs = append(defs, id.Name)
 				}
 			}
 		case *ast.IfStmt:
-			ce, ok := t.Cond.(*ast.CallExpr)
-			if !ok {
+			branch(t.Cond, t.Body)
+		case *ast.SwitchStmt:
+			if t.Tag != nil {
 				return true
 			}
-			se, ok := ce.Fun.(*ast.SelectorExpr)
-			if !ok {
-				return true
-			}
-			pk, _ := se.X.(*ast.Ident)
-			if pk == nil || pk.Name != "errors" {
-				return true
-			}
-			ids := identsIn(ce)
-			if se.Sel.Name == "As" && ids["qpackErr"] {
-				qp = errCodeIdent(t.Body)
-			}
-			if se.Sel.Name == "Is" && ids["errHeaderTooLarge"] {
-				tooLarge = errCodeIdent(t.Body)
-				tooLargeRejects = identsIn(t.Body)["rejectWithHeaderFieldsTooLarge"]
+			for _, st := range t.Body.List {
+				cc := st.(*ast.CaseClause)
+				for _, e := range cc.List {
+					branch(e, &ast.BlockStmt{List: cc.Body})
+				}
 			}
 		}
 		return true
 	})
-	if def == "" || qp == "" {
-		return "", "", "", false, fmt.Errorf("%s: could not find `errCode := ErrCode…` / errors.As(err,&qpackErr) mapping", fd.Name.Name)
+	if len(defs) == 1 {
+		def = defs[0]
+	}
+	if def == "" || qp == "" || !hasQpackVar {
+		return "", "", "", false, fmt.Errorf("%s: could not find `<v> := ErrCode…` / errors.As(err, &<*qpackError>) mapping", fd.Name.Name)
+	}
+	if eqCompare {
+		return def, qp, tooLarge, tooLargeRejects, fmt.Errorf("%s: errHeaderTooLarge is compared with == / != (a wrapped error is not recognised); expected errors.Is", fd.Name.Name)
 	}
 	return
 }
@@ -249,42 +416,57 @@ func init() {
 		}
 		var cases []pc
 		nSwitch := 0
-		ast.Inspect(ph, func(x ast.Node) bool {
-			sw, ok := x.(*ast.SwitchStmt)
-			if !ok {
-				return true
+		pkg, err := loadH3Pkg(c, "http3")
+		if err != nil {
+			return err
+		}
+		// the switch over the pseudo-header names may live in parseHeaders or in a same-package helper it calls
+		phRoot := ph
+		if ds := pkg.funcs["parseHeaders"]; len(ds) == 1 {
+			phRoot = ds[0]
+		}
+		for _, fd := range pkg.closure(phRoot) {
+			if fd.Body == nil {
+				continue
 			}
-			var cur []pc
-			pseudo := false
-			for _, st := range sw.Body.List {
-				cc := st.(*ast.CaseClause)
-				for _, e := range cc.List {
-					if s, ok := strLit(e); ok {
-						if strings.HasPrefix(s, ":") {
-							pseudo = true
-						}
-						resp := false
-						for _, b := range cc.Body {
-							if as, ok := b.(*ast.AssignStmt); ok && len(as.Lhs) == 1 && len(as.Rhs) == 1 {
-								if id, ok := as.Lhs[0].(*ast.Ident); ok && id.Name == "isResponsePseudoHeader" {
-									if v, ok := as.Rhs[0].(*ast.Ident); ok && v.Name == "true" {
-										resp = true
+			ast.Inspect(fd.Body, func(x ast.Node) bool {
+				sw, ok := x.(*ast.SwitchStmt)
+				if !ok {
+					return true
+				}
+				var cur []pc
+				pseudo := false
+				for _, st := range sw.Body.List {
+					cc := st.(*ast.CaseClause)
+					for _, e := range cc.List {
+						if s, ok := strLit(e); ok {
+							if strings.HasPrefix(s, ":") {
+								pseudo = true
+							}
+							// the response-only case is the one that sets a boolean variable to the literal `true`
+							resp := false
+							for _, b := range cc.Body {
+								if as, ok := b.(*ast.AssignStmt); ok && len(as.Lhs) == 1 && len(as.Rhs) == 1 {
+									if _, ok := as.Lhs[0].(*ast.Ident); ok {
+										if v, ok := as.Rhs[0].(*ast.Ident); ok && v.Name == "true" {
+											resp = true
+										}
 									}
 								}
 							}
+							cur = append(cur, pc{s, resp})
 						}
-						cur = append(cur, pc{s, resp})
 					}
 				}
-			}
-			if pseudo {
-				nSwitch++
-				cases = cur
-			}
-			return true
-		})
+				if pseudo {
+					nSwitch++
+					cases = cur
+				}
+				return true
+			})
+		}
 		if nSwitch != 1 {
-			problem(fmt.Errorf("parseHeaders: expected exactly one switch over pseudo-header names, found %d", nSwitch))
+			problem(fmt.Errorf("parseHeaders (and the same-package functions it calls): expected exactly one switch over pseudo-header names, found %d", nSwitch))
 			cases = nil
 		}
 		w.P("/-- http3/headers.go parseHeaders: `switch h.Name` cases for pseudo-header fields; `true` = the case sets isResponsePseudoHeader -/")
@@ -300,7 +482,7 @@ func init() {
 		w.P("")
 
 		// --- per-field size overhead
-		oh, err := sizeOverhead(ph)
+		oh, err := pkg.sizeOverhead(phRoot)
 		if err != nil {
 			problem(err)
 			oh = 0
@@ -309,7 +491,10 @@ func init() {
 		if pt == nil {
 			return fmt.Errorf("func parseTrailers not found")
 		}
-		oht, err := sizeOverhead(pt)
+		if ds := pkg.funcs["parseTrailers"]; len(ds) == 1 {
+			pt = ds[0]
+		}
+		oht, err := pkg.sizeOverhead(pt)
 		if err != nil {
 			problem(err)
 			oht = 0
